@@ -215,15 +215,23 @@ reg(Check("C19", "exploration",
           "query parser: every string of length <=6 (quick) / <=7 (thorough) over {a,b,1,@,space,tab,comma,quote,colon,e-acute} x "
           "{validators none, email+tel} x {login rewrite off,on} against a grammar-driven reference parser; rewriteTag: all tokens <=5 "
           "over a 10-symbol alphabet; normalizeTags: all lists <=3 from a 16-element menu x 2 limits; restricted-tag filters: all pairs "
-          "of <=3-subsets of 9 tags x 4 namespace configurations. non-trivial = malformed or multi-term queries / rewritten tokens / multi-tag lists",
+          "of <=3-subsets of 9 tags x 4 namespace configurations. Sessions: breadth-first search to depth 3 (quick) / 5 (thorough) over "
+          "histories of 26 operations ({set tags} on 'me' and on an owned group with 10 tag lists incl. reserved tags dropped / added / "
+          "beyond the count limit / clear; per-session 'fnd' queries set / cleared / private / read from two sessions of one user, leave and "
+          "re-join; an account suspended, a topic deleted) through real sessions with immutable namespaces {basic,email} and masked {tel}. "
+          "non-trivial = malformed or multi-term queries / rewritten tokens / multi-tag lists / canonical states",
           ["reference grammar written from docs/API.md; validity and rewriting of a single term is delegated to the real rewriteTag, "
-           "whose own rules are enumerated separately", "tag histories through a live fnd/grp topic are covered by the C19 'fnd' part when present"],
-          text="Bounded-exhaustive enumeration of query strings and tag lists against reference implementations.",
+           "whose own rules are enumerated separately",
+           "sessions: the query in force is read from the loaded 'fnd' topic (a {set private} clears the session's public query by design); "
+           "carrying a masked tag is treated as necessary, not sufficient; memdb implements FindUsers / FindTopics as the MySQL adapter does"],
+          text="Bounded-exhaustive enumeration of query strings and tag lists against reference implementations; explicit-state search "
+               "over tag-update and search histories through real sessions.",
           note="strings longer than the bound are not enumerated",
           technique="bounded-exhaustive enumeration against a reference model", engine="E4 enum", claimed=True,
           parts=[Part("query", SRV, "^TestVerifC19Query$", instr=True, shards=(10, 10), deadline=(300, 2400)),
                  Part("rewrite", SRV, "^TestVerifC19RewriteTag$", instr=True, shards=(10, 10)),
-                 Part("tags", SRV, "^TestVerifC19Tags$", instr=True)]))
+                 Part("tags", SRV, "^TestVerifC19Tags$", instr=True),
+                 Part("sessions", SRV, "^TestVerifC19Sessions$", instr=True, gomaxprocs=16, deadline=(300, 3000))]))
 
 reg(Check("C08", "model_checking",
           "direct: cached topic state == stored rows at every state of the acl and msg searches; faults: every request of the alphabet "
